@@ -252,6 +252,7 @@ def check_c01(chk, args):
     printers_binding(chk, vals)
 
 
+SUB_TYPES = {}      # subclass of a built-in type -> (printed constructor name, base kind)
 CALL_TYPES = {}     # type -> function(v) -> (name, args, [(kw, value)...]) for user types printed through pretty_call
 
 
@@ -264,6 +265,19 @@ def model_term(v, sort):
         return ['cm', pyterm.codes(v.comment), model_term(v.value, sort)]
     if t is PPm._TrailingCommentedValue:
         return ['tcm', pyterm.codes(v.comment), model_term(v.value, sort)]
+    if t in SUB_TYPES:
+        qual, kind = SUB_TYPES[t]
+        base = {'list': list, 'tuple': tuple, 'set': set, 'frozenset': frozenset, 'dict': dict, 'str': str,
+                'bytes': bytes, 'int': int, 'float': float}[kind]
+        if kind in ('int', 'float'):
+            inner = base.__new__(base, v)
+        elif kind in ('str', 'bytes'):
+            inner = base.__getitem__(v, slice(None))
+        elif kind == 'dict':
+            inner = dict(dict.items(v))
+        else:
+            inner = base(v)
+        return ['sub', pyterm.codes(qual), model_term(inner, sort)]
     if t in CALL_TYPES:
         name, args, kws = CALL_TYPES[t](v)
         return ['call', pyterm.codes(name), [model_term(a, sort) for a in args],
@@ -396,6 +410,8 @@ def check_c08(chk, args):
         'sole-element': (lambda x: (x,), lambda t: ['tuple', [t]]),
     }
 
+    bound = []
+
     def jobs():
         vi = 0
         for cls, (qual, kind) in S.ALL.items():
@@ -416,6 +432,8 @@ def check_c08(chk, args):
                     for cn, w_, wt_ in ctxs:
                         vi += 1
                         val = w_(inst)
+                        if cls is not S.IE:
+                            bound.append(val)
                         expected = wt_(pyterm.value_term(inst, subs=S.ALL))
                         widths = [1, 5, 10, 20, 30, 40, 50, 70, 79] if q else list(range(1, 71)) + [79, 200]
                         for w in widths:
@@ -427,5 +445,9 @@ def check_c08(chk, args):
         'overriding __repr__ / __str__ / both, and an IntEnum; x base values (empty, short, long enough to split, '
         'special floats) x contexts (top, list element, dict value, dict key, sole tuple element) x widths; the parsed '
         'output must denote <<"sub", qualified name, base value>> (PyTerm!Denote); distinct = (instance, context, output)'))
+    # spec -> code: Printers.tla predicts the exact text of subclass instances (wrapper call, hugging, empty and
+    # placeholder forms, the forced plain strategy of split str / bytes subclasses) - DRIFT only
+    SUB_TYPES.update({c: qk for c, qk in S.ALL.items() if c is not S.IE})
+    printers_binding(chk, bound, name='subclasses', per_value=1 if q else 3)
     chk.assumptions += ['cross-oracle: eval with the generated module in scope, type(result) is the subclass and the '
                         'underlying base values are typed-equal']
